@@ -5,5 +5,5 @@ CONSTANTS
   MenuSize = 8
   Part = 0
   Parts = 1
-INVARIANTS SourceCoversMatches MatcherAgrees OrderLimitValid
+INVARIANTS SourceCoversMatches TypedSourceOnce MatcherAgrees OrderLimitValid
 CHECK_DEADLOCK FALSE
